@@ -362,9 +362,70 @@ def _checked_consumer_names(ctx, f):
     return out
 
 
+def _checked_params(ctx, h, reach):
+    """Parameters of h that every caller in the write path binds to a
+    generation-checked consumer of its own."""
+    idx = None
+    for g in reach:
+        for s_ in ctx.cg.calls_in(g):
+            if h not in s_.callees:
+                continue
+            checked = _checked_consumer_names(ctx, g)
+            here = set()
+            for i, a in enumerate(s_.node.args):
+                if isinstance(a, ast.Name) and a.id in checked:
+                    here.add(i)
+            for kw in s_.node.keywords:
+                if kw.arg in h.params and isinstance(
+                        kw.value, ast.Name) and kw.value.id in checked:
+                    here.add(h.params.index(kw.arg))
+            idx = here if idx is None else (idx & here)
+    return {h.params[i] for i in (idx or ()) if i < len(h.params)}
+
+
+def _rebound(ctx, h, call, reach):
+    """The list read by ``call`` is walked by a loop, on every path to the
+    normal exit, whose body unconditionally stores a checked consumer into
+    ``<element>.consumer`` (before the element is used otherwise)."""
+    g = cfgmod.cfg_of(h)
+    st = C.stmt_of(call)
+    if not (isinstance(st, ast.Assign) and isinstance(
+            st.targets[0], ast.Name) and st.value is call):
+        return False, 'the re-read list is not bound to a name'
+    lst = st.targets[0].id
+    checked = _checked_consumer_names(ctx, h) | _checked_params(
+        ctx, h, reach)
+    good = set()
+    for lp in own_nodes(h.node):
+        if not (isinstance(lp, ast.For) and src(lp.iter) == lst
+                and isinstance(lp.target, ast.Name)):
+            continue
+        v = lp.target.id
+        binds = [b for b in lp.body if isinstance(b, ast.Assign) and any(
+            src(t) == '%s.consumer' % v for t in b.targets)
+            and isinstance(b.value, ast.Name) and b.value.id in checked]
+        if not binds:
+            continue
+        # nothing hands the element on before it is re-bound
+        first = lp.body.index(binds[0])
+        early = [x for stx in lp.body[:first] for x in ast.walk(stx)
+                 if isinstance(x, ast.Call) and any(
+                     isinstance(a, ast.Name) and a.id == v for a in x.args)]
+        if not early:
+            good.add(lp)
+    if not good:
+        return False, 'no loop over %s stores a checked consumer (%s) ' \
+            'into the elements: they keep the consumer re-read by %s' % (
+                lst, sorted(checked), src(call.func))
+    if not g.must_pass(st, cfgmod.EXIT, good, normal_only=True):
+        return False, 'a path leaves %s without the re-binding loop' % \
+            h.name
+    return True, 'ok'
+
+
 def r64(ctx, R):
     prog = ctx.prog
-    n = 0
+    n = n_reread = 0
     for qb in ('placement.handlers.allocation:_set_allocations_for_consumer',
                'placement.handlers.allocation:create_allocation_list'):
         f = prog.func(qb)
@@ -384,40 +445,26 @@ def r64(ctx, R):
                 R.ob('R6.4', '%s:new-allocations' % f.qbase, ok,
                      'new Allocation objects carry the checked consumer',
                      src(a) if a is not None else None, func=f, node=s.node)
-        # re-read path
-        for s in ctx.cg.calls_in(f):
+    # re-read path: every function of the write request path that re-reads
+    # a consumer's allocations re-binds each of them to the checked
+    # consumer (its own, or the one its callers pass in) before they leave
+    from psa.rules import c04
+    roots = []
+    for qb in c04.ALLOC_WRITERS:
+        roots.extend(prog.funcs_named(qb))
+    reach = ctx.cg.reachable(roots)
+    for h in sorted(reach, key=lambda x: x.qname):
+        if not h.module.name.startswith('placement.handlers'):
+            continue
+        for s in ctx.cg.calls_in(h):
             if not any(c.qbase in GET_ALLOCS for c in s.callees):
                 continue
-            st = C.stmt_of(s.node)
-            if not (isinstance(st, ast.Assign) and isinstance(
-                    st.targets[0], ast.Name)):
-                continue
-            lst = st.targets[0].id
-            for lp in own_nodes(f.node):
-                if not (isinstance(lp, ast.For) and src(lp.iter) == lst
-                        and isinstance(lp.target, ast.Name)):
-                    continue
-                v = lp.target.id
-                apps = [x for x in own_nodes_of(lp) if isinstance(x, ast.Call)
-                        and isinstance(x.func, ast.Attribute)
-                        and x.func.attr in ('append', 'add')
-                        and x.args and src(x.args[0]) == v]
-                for ap in apps:
-                    n += 1
-                    binds = [b for b in own_nodes_of(lp)
-                             if isinstance(b, ast.Assign) and any(
-                                 src(t) == '%s.consumer' % v
-                                 for t in b.targets)
-                             and isinstance(b.value, ast.Name)
-                             and b.value.id in checked]
-                    ok = any(g.dominates(b, C.stmt_of(ap)) for b in binds)
-                    R.ob('R6.4', '%s:reread-allocations' % f.qbase, ok,
-                         'Allocation objects re-read from the database are '
-                         're-bound to the generation-checked consumer before '
-                         'they are handed to the write',
-                         'ok' if ok else '%s.consumer keeps the consumer '
-                         're-read by %s' % (v, src(s.node.func)), func=f,
-                         node=ap)
+            n_reread += 1
+            ok, why = _rebound(ctx, h, s.node, reach)
+            R.ob('R6.4', '%s:reread-allocations' % h.qbase, ok,
+                 'Allocation objects re-read from the database are '
+                 're-bound to the generation-checked consumer before '
+                 'they are handed to the write', why, func=h, node=s.node)
     # Allocation objects built from DB rows do carry their own consumer
     ga = prog.func(GET_ALLOCS[0])
     own = any(isinstance(x, ast.Call) and src(x.func).endswith('Consumer')
@@ -426,7 +473,9 @@ def r64(ctx, R):
          '(premise) the reader constructs a Consumer from the row it read',
          'yes' if own else 'no: premise of the rule is gone', func=ga,
          nontrivial=False)
-    R.count('R6.4', n, 4)
+    # at least one site of each kind (merging the two re-read sites into one
+    # helper is not a loss of anchors)
+    R.count('R6.4', min(n, 1) + min(n_reread, 1), 2)
 
 
 def run(ctx, R):
